@@ -522,6 +522,27 @@ static void check_sm(int ver, const std::vector<int>& idx) {
 	if (verts.size() != pts.size()) { st.add("sm_shapes_with_other_vertex_count"); if (verts.empty()) return; }
 	shape->UpdateBounds();
 	check_sphere_of(verts, shape->GetBounds(), std::string("UpdateBounds:") + shape->GetBlockName(), std::string("shape created in ") + SM_VERSIONS[ver] + " from lattice points " + js);
+	// "recomputed shape bounds contain all vertices" also after the vertices were edited through the API
+	// (the getters above have filled whatever caches the shape keeps): every edit kind, then UpdateBounds
+	static const char* EDITS[] = {"SetVertsForShape", "MoveVertex", "OffsetShape", "ScaleShape", "RotateShape"};
+	for (int e = 0; e < 5; e++) {
+		std::vector<Vector3> cur;
+		nif.GetVertsForShape(shape, cur);
+		if (cur.empty()) break;
+		switch (e) {
+			case 0: { std::vector<Vector3> moved = cur; for (auto& p : moved) p = Vector3(p.x * 3.0f + 50.0f, p.y - 120.0f, p.z * 0.5f + 7.0f); nif.SetVertsForShape(shape, moved); break; }
+			case 1: nif.MoveVertex(shape, Vector3(cur[0].x + 900.0f, cur[0].y, cur[0].z - 400.0f), 0); break;
+			case 2: nif.OffsetShape(shape, Vector3(-300.0f, 40.0f, 1000.0f)); break;
+			case 3: nif.ScaleShape(shape, Vector3(4.0f, 0.25f, 2.0f)); break;
+			case 4: nif.RotateShape(shape, Vector3(30.0f, 60.0f, 90.0f)); break;
+		}
+		std::vector<Vector3> now;
+		nif.GetVertsForShape(shape, now);
+		shape->UpdateBounds();
+		st.add("bounds_after_edit_checked");
+		check_sphere_of(now, shape->GetBounds(), std::string("UpdateBounds-after-") + EDITS[e] + ":" + shape->GetBlockName(),
+						std::string("shape created in ") + SM_VERSIONS[ver] + " from lattice points " + js + ", bounds recomputed after " + EDITS[e]);
+	}
 }
 
 // ---------------------------------------------------------------- units
